@@ -44,7 +44,8 @@ RECURSIVE StrongDrop(_, _, _)
 RECURSIVE DropAll(_, _, _)
 \* Rc::drop of one strong handle to o
 StrongDrop(st, g, o) ==
-  IF st.strong[o] > 1 THEN [st EXCEPT !.strong[o] = @ - 1]
+  IF st.strong[o] = 0 THEN st          \* cannot happen in std::rc; keeps the function total
+  ELSE IF st.strong[o] > 1 THEN [st EXCEPT !.strong[o] = @ - 1]
   ELSE \* last strong handle: destroy the value (fields dropped in order), then the implicit weak
        LET s1 == [st EXCEPT !.strong[o] = 0, !.alive[o] = FALSE, !.dlog = Append(@, o)]
            s2 == DropAll(s1, g, Fields(g, o))
@@ -103,6 +104,7 @@ StdApply(st0, g, op, a, b) ==
     [] op = "DropDetached" ->
          \* the caller drops a value obtained from try_unwrap: its destructor and fields
          [DropAll([st EXCEPT !.dlog = Append(@, a)], g, Fields(g, a)) EXCEPT !.ret = "unit"]
+    [] op = "Misc" -> [st EXCEPT !.ret = "same"]
     [] OTHER -> st
 
 \* what the public API lets a program observe of an abstract state
